@@ -832,6 +832,7 @@ func clip(s []string) []string {
 func (e *Exec) Step(i int, op *Op) bool {
 	e.opIdx, e.cur = i, op
 	e.OpHitCapacity = false
+	traceOp(i, op)
 	e.Stats.Ops[op.K]++
 	if len(op.Colls) > 0 {
 		e.stepTwins(op)
